@@ -45,7 +45,12 @@ class ExactMarginalLogLikelihood(MarginalLogLikelihood):
         res_ndim = res.ndim
         for name, module, prior, closure, _ in self.model.named_priors():
             prior_term = prior.log_prob(closure(module))
-            res.add_(prior_term.view(*prior_term.shape[:res_ndim], -1).sum(dim=-1))
+            # The leading (batch) dimensions of a parameter are those of the module that owns it, and they
+            # broadcast against the batch shape of the result from the right: sum over everything else.
+            module_batch_shape = getattr(module, "batch_shape", None)
+            num_batch_dims = res_ndim if module_batch_shape is None else len(module_batch_shape)
+            num_batch_dims = min(num_batch_dims, prior_term.ndim)
+            res.add_(prior_term.view(*prior_term.shape[:num_batch_dims], -1).sum(dim=-1))
 
         return res
 
